@@ -40,6 +40,16 @@ func ParseDateTime(value string) (DateTime, error) {
 	value = strings.TrimPrefix(value, "@")
 	for _, l := range dateTimeLayouts {
 		if t, err = time.Parse(l, value); err == nil {
+			if strings.Contains(value, ".") {
+				// time.Parse accepts a fraction that the layout does not mention:
+				// keep it visible, at the millisecond precision DateTime supports
+				switch l {
+				case dtSecondLayoutTZ:
+					return DateTime{t.Truncate(time.Millisecond), dtMillisecondLayoutTZ}, nil
+				case dtSecondLayout:
+					return DateTime{t.Truncate(time.Millisecond), dtMillisecondLayout}, nil
+				}
+			}
 			return DateTime{t, layout(l)}, nil
 		}
 	}
